@@ -30,6 +30,7 @@ func cfgFor(prop string, r *Rng) GenCfg {
 	switch prop {
 	case "C22":
 		f["storage"], f["resource"], f["control"] = 10, 2, 1
+		c.ScnRate = 0.1
 	case "C23":
 		f["storage"], f["resource"], f["container"], f["attachment"] = 3, 6, 4, 1
 		f["contract"], f["capability"] = 2, 2 // contract values and capability controllers live in storage domains of their own
